@@ -1146,7 +1146,8 @@ def replay(ctx, obj):
     lean = common.lean_check("C06")
     inp = (obj.get("failing_input") or obj.get("first"))["input"]
     if inp.get("kind") == "polygon":
-        poly_case(rep, [(Fr(a), Fr(b)) for a, b in inp["vertices"]], 0, 0, fixed=inp["point"])
+        rings_ = inp.get("rings") or [inp["vertices"]]
+        poly_case(rep, [[(Fr(a), Fr(b)) for a, b in r_] for r_ in rings_], 0, 0, fixed=inp["point"], disc=inp.get("disc"))
         rep.case(dict(replay=inp), True)
         return common.finish(ctx, rep, lean)
     if inp.get("kind") == "polyhedron":
@@ -1173,7 +1174,16 @@ DIRS16 = [(4, 0), (4, 2), (3, 3), (2, 4), (0, 4), (-2, 4), (-3, 3), (-4, 2), (-4
 
 
 def poly_contains(verts, q):
-    """even-odd rule, exact (q is never on an edge in the step test; returns None if it is)"""
+    """even-odd rule, exact (q is never on an edge in the step test; returns None if it is).
+    `verts` is one ring or a list of rings (exterior + holes): the crossing parity over all rings is the membership"""
+    if verts and isinstance(verts[0][0], (list, tuple)):
+        res = False
+        for ring in verts:
+            r_ = poly_contains(ring, q)
+            if r_ is None:
+                return None
+            res = res != r_
+        return res
     x, y = q
     inside = False
     n = len(verts)
@@ -1210,6 +1220,57 @@ def gen_polygon(rng):
     return verts
 
 
+def segs_cross(a, b, c_, d):
+    """closed segments ab and cd intersect (exact)"""
+    def orient(p_, q_, r_):
+        v_ = (q_[0] - p_[0]) * (r_[1] - p_[1]) - (q_[1] - p_[1]) * (r_[0] - p_[0])
+        return (v_ > 0) - (v_ < 0)
+    def on(p_, q_, r_):
+        return min(p_[0], q_[0]) <= r_[0] <= max(p_[0], q_[0]) and min(p_[1], q_[1]) <= r_[1] <= max(p_[1], q_[1])
+    o1, o2, o3, o4 = orient(a, b, c_), orient(a, b, d), orient(c_, d, a), orient(c_, d, b)
+    if o1 != o2 and o3 != o4:
+        return True
+    return (o1 == 0 and on(a, b, c_)) or (o2 == 0 and on(a, b, d)) or (o3 == 0 and on(c_, d, a)) or (o4 == 0 and on(c_, d, b))
+
+
+def ring_edges(ring):
+    return [(ring[i], ring[(i + 1) % len(ring)]) for i in range(len(ring))]
+
+
+def gen_polygon_rings(rng):
+    """exterior ring plus 0 … 4 holes (each a small star-shaped polygon with its own vertex count and orientation, strictly
+    inside the exterior and disjoint from the other holes — checked exactly)"""
+    ext = gen_polygon(rng)
+    rings = [ext]
+    want = rng.choice([0, 1, 2, 2, 3, 3, 4])
+    if want == 0:
+        return rings
+    xs = [a for a, _ in ext]; ys = [b for _, b in ext]
+    w_, h_ = max(xs) - min(xs), max(ys) - min(ys)
+    for _ in range(60):
+        if len(rings) - 1 >= want:
+            break
+        k = rng.choice([3, 4, 5, 6])
+        idx = sorted(rng.sample(range(16), k))
+        if not all(((idx[(i + 1) % k] - idx[i]) % 16) < 8 for i in range(k)):
+            continue
+        cx = min(xs) + w_ * Fr(rng.randint(2, 14), 16)
+        cy = min(ys) + h_ * Fr(rng.randint(2, 14), 16)
+        size = min(w_, h_) * Fr(rng.randint(1, 3), 64)
+        hole = [(cx + size * Fr(rng.randint(4, 8), 8) * DIRS16[i][0], cy + size * Fr(rng.randint(4, 8), 8) * DIRS16[i][1]) for i in idx]
+        if not all(poly_contains(ext, v_) is True for v_ in hole):
+            continue
+        others = [e_ for r_ in rings for e_ in ring_edges(r_)]
+        if any(segs_cross(a, b, c_, d) for a, b in ring_edges(hole) for c_, d in others):
+            continue
+        if any(poly_contains(r_, hole[0]) is not False for r_ in rings[1:]) or any(poly_contains(hole, r_[0]) is not False for r_ in rings[1:]):
+            continue          # nested holes
+        if rng.random() < 0.5:
+            hole.reverse()
+        rings.append(hole)
+    return rings
+
+
 def opaque_point_oracles(rep, what, inp, p, nv, pieces, contains, src):
     """pieces: list of (distance from p, id); contains(q: list of Fraction) -> bool|None"""
     rep.count(what + ":points")
@@ -1243,15 +1304,30 @@ def opaque_point_oracles(rep, what, inp, p, nv, pieces, contains, src):
                  {k_: v_ for k_, v_ in inp.items() if not k_.startswith("_")}, detail=dict(normal=nv, eps=eps))
 
 
-def poly_case(rep, verts, seed, n, fixed=None):
+def poly_case(rep, verts, seed, n, fixed=None, disc=None):
     tp = common.use_repo()
     import torch
     from torchphysics.problem.domains.domain2D.shapely_polygon import ShapelyPolygon
     X = tp.spaces.R2("x")
-    P = ShapelyPolygon(X, vertices=[[float(a), float(b)] for a, b in verts])
-    B = P.boundary
-    fl = [(float(a), float(b)) for a, b in verts]
-    segs = [(fl[i], fl[(i + 1) % len(fl)]) for i in range(len(fl))]
+    rings = verts if isinstance(verts[0][0], (list, tuple)) else [verts]
+    verts = rings
+    if len(rings) == 1:
+        P = ShapelyPolygon(X, vertices=[[float(a), float(b)] for a, b in rings[0]])
+    else:
+        import shapely.geometry as s_geo
+        P = ShapelyPolygon(X, shapely_polygon=s_geo.Polygon([(float(a), float(b)) for a, b in rings[0]],
+                                                            [[(float(a), float(b)) for a, b in r_] for r_ in rings[1:]]))
+    D = P
+    if disc is not None:
+        # union / cut / intersection of the polygon (with its holes) and a disc
+        op, dcx, dcy, dr = disc[0], Fr(disc[1]), Fr(disc[2]), Fr(disc[3])
+        C = tp.domains.Circle(X, [float(dcx), float(dcy)], float(dr))
+        D = P + C if op == "union" else P - C if op == "cut" else P & C
+    B = D.boundary
+    segs = []
+    for r_ in rings:
+        fl = [(float(a), float(b)) for a, b in r_]
+        segs += [(fl[i], fl[(i + 1) % len(fl)]) for i in range(len(fl))]
     scale = min(math.dist(a, b) for a, b in segs)
     rows = []
     if fixed is not None:
@@ -1269,12 +1345,30 @@ def poly_case(rep, verts, seed, n, fixed=None):
                 rows += [(r, how) for r in t.tolist()]
             except Exception:
                 rep.count("polygon:sampler-raised:" + how)
-        # edge midpoints (exact dyadic points of the boundary)
-        rows += [([(a[0] + b[0]) / 2, (a[1] + b[1]) / 2], "constructed-edge") for a, b in segs]
+        # edge midpoints (exact dyadic points of the boundary); with a disc: only those the boundary's membership test accepts
+        mids = [([(a[0] + b[0]) / 2, (a[1] + b[1]) / 2], "constructed-edge") for a, b in segs]
+        if disc is not None and mids:
+            try:
+                ok_ = B._contains(tp.spaces.Points(torch.tensor([m_ for m_, _ in mids], dtype=torch.float32), X)).reshape(-1).tolist()
+                mids = [m_ for m_, o_ in zip(mids, ok_) if o_]
+            except Exception:
+                mids = []
+        rows += mids
     if not rows:
         return 0
     pts = tp.spaces.Points(torch.tensor([r for r, _ in rows], dtype=torch.float32), X)
-    base = dict(kind="polygon", vertices=[[str(a), str(b)] for a, b in verts])
+    base = dict(kind="polygon", rings=[[[str(a), str(b)] for a, b in r_] for r_ in rings])
+    if disc is not None:
+        base["disc"] = [disc[0], str(dcx), str(dcy), str(dr)]
+    def member(q):
+        inp_ = poly_contains(verts, q)
+        if disc is None or inp_ is None:
+            return inp_
+        d2 = (q[0] - dcx) ** 2 + (q[1] - dcy) ** 2
+        if d2 == dr * dr:
+            return None
+        inc = d2 < dr * dr
+        return (inp_ or inc) if op == "union" else (inp_ and not inc) if op == "cut" else (inp_ and inc)
     try:
         nv = torch.as_tensor(B.normal(pts)).to(torch.float64).tolist()
     except Exception as e:  # noqa
@@ -1282,9 +1376,15 @@ def poly_case(rep, verts, seed, n, fixed=None):
         return len(rows)
     for (p, src), v in zip(rows, nv):
         p32 = [f32(a) for a in p]
-        inp = dict(base, point=[str(to_fr(a)) for a in p32], point_float=p32, source=src, _scale=scale)
-        opaque_point_oracles(rep, "polygon", inp, p32, v, [seg_dist(p32, a, b) for a, b in segs],
-                             lambda q: poly_contains(verts, q), src)
+        ds_ = [seg_dist(p32, a, b) for a, b in segs]
+        sizes_ = [math.dist(a, b) for a, b in segs]
+        if disc is not None:
+            ds_.append(abs(math.dist(p32, [float(dcx), float(dcy)]) - float(dr)))
+            sizes_.append(float(dr))
+        near = min(range(len(ds_)), key=lambda i_: ds_[i_])
+        # size of the piece the point lies on (holes can be much smaller than the exterior ring)
+        inp = dict(base, point=[str(to_fr(a)) for a in p32], point_float=p32, source=src, _scale=sizes_[near])
+        opaque_point_oracles(rep, "polygon" if disc is None else "polygon-boolean", inp, p32, v, ds_, member, src)
     return len(rows)
 
 
@@ -1447,12 +1547,21 @@ def mesh_case(rep, V, F, seed, n, fixed=None):
 def opaque_streams(ctx, rep):
     rng = ctx.rng
     for i in range(ctx.scale(14, 120)):
-        verts = gen_polygon(rng)
+        rings = gen_polygon_rings(rng)
         seed = rng.randint(0, 2 ** 31 - 1)
-        k = poly_case(rep, verts, seed, rng.choice([6, 12, 20]))
+        disc = None
+        if rng.random() < 0.3:
+            # a disc centred on the middle of an exterior edge: crosses the exterior ring (and possibly holes)
+            a_, b_ = rng.choice(ring_edges(rings[0]))
+            xs_ = [v_[0] for v_ in rings[0]]; ys_ = [v_[1] for v_ in rings[0]]
+            disc = (rng.choice(["union", "cut", "inter"]), (a_[0] + b_[0]) / 2, (a_[1] + b_[1]) / 2,
+                    min(max(xs_) - min(xs_), max(ys_) - min(ys_)) * Fr(rng.randint(2, 5), 16))
+            rep.count("polygon:boolean-with-disc:" + disc[0])
+        k = poly_case(rep, rings, seed, rng.choice([6, 12, 20]), disc=disc)
         rep.count("mode:polygon")
-        rep.case(dict(polygon=[[str(a), str(b)] for a, b in verts]), k > 0, kind="polygon",
-                 sample=dict(expression="ShapelyPolygon", vertices=[[float(a), float(b)] for a, b in verts], points=k))
+        rep.count("polygon:holes:%d" % (len(rings) - 1))
+        rep.case(dict(polygon=[[[str(a), str(b)] for a, b in r_] for r_ in rings]), k > 0, kind="polygon",
+                 sample=dict(expression="ShapelyPolygon", rings=[[[float(a), float(b)] for a, b in r_] for r_ in rings], points=k))
     for i in range(ctx.scale(8, 60)):
         V, F = gen_polyhedron(rng)
         if rng.random() < 0.5:
